@@ -155,6 +155,30 @@ def many_partitions(ctx):
             except Exception as e:  # noqa: BLE001
                 ctx.fail(doc, dict(error=f"{type(e).__name__}: {e}"[:200]), "conversion of the split files failed")
             ctx.traces_validated += 1
+            # the same records as position windows: file k holds the k-th stretch of *every* contig, so
+            # the files' partitions interleave in genome order
+            w = r.choice([2, 3])
+            win = [[] for _ in range(w)]
+            for j in range(nc):
+                ks = sorted(r.randint(0, len(per[j])) for _ in range(w - 1))
+                for k, (a, b) in enumerate(zip([0] + ks, ks + [len(per[j])])):
+                    win[k] += per[j][a:b]
+            win = [x for x in win if x]
+            wfiles = [vcfgen.make_indexed(d, f"{r.choice('abz')}win{k}", vcfgen.vcf_text(hdr, x, samples=["s0", "s1"]), kind=r.choice(["tbi", "csi"]), lines_per_block=r.choice([1, 50]))
+                      for k, x in enumerate(win)]
+            r.shuffle(wfiles)
+            doc = dict(doc0, kind="window-split-files", files=len(wfiles))
+            ctx.case(doc, nontrivial=True)
+            ctx.count("config:window-split-files")
+            try:
+                vcf2zarr.explode(P("w.icf"), wfiles, worker_processes=0)
+                vcf2zarr.encode(P("w.icf"), P("w.vcz"), variants_chunk_size=vcs, worker_processes=0)
+                bad = diff_snap(ref, snapshot(P("w.vcz")), dummy, ignore_attrs=True)
+                if bad:
+                    ctx.fail(doc, dict(arrays=bad[:5]), f"store depends on the configuration ({len(wfiles)} files, each a position window of every contig): {bad[:4]} differ from the unsplit reference")
+            except Exception as e:  # noqa: BLE001
+                ctx.fail(doc, dict(error=f"{type(e).__name__}: {e}"[:200]), "conversion of the window-split files failed")
+            ctx.traces_validated += 1
         finally:
             shutil.rmtree(d, ignore_errors=True)
 
